@@ -239,6 +239,7 @@ type syWorld struct {
 	cpods      []*v1.Pod
 	gone       bool // the set no longer exists in the API: a status write answers NotFound
 	setIdx     cache.Indexer
+	podLister  *orderedPodLister
 	// graceful: a pod delete only stamps a deletion timestamp (the world engine removes the pod at its next settle)
 	graceful bool
 }
